@@ -5,6 +5,7 @@ from props.common import *
 from props import dwtfam
 
 ID = 'C05'
+MODE_ALIAS = True
 PROPS_MODULE = 'Props.C05'
 THEOREMS = ['C05_adjoint_zero_line', 'C05_afb_zero_row', 'C05_afb_per_row', 'C05_afb2d_zero', 'C05_afb2d_per', 'C05_subsets', 'C05_afb_sym_refuted']
 VO = ['theories/Props/C05.vo', 'theories/Run/RunDwt.vo']
@@ -72,8 +73,8 @@ def oracle_run(cfg):
     d1 = cfg['kind'] == '1d'
     shp = (1, 1, cfg['N']) if d1 else (1, 1, cfg['H'], cfg['W'])
     from props import c01
-    fwd = (DWT1DForward if d1 else DWTForward)(J=J, wave=wn if d1 else c01.wave_arg(cfg, 'dec'), mode=mode)
-    inv = (DWT1DInverse if d1 else DWTInverse)(wave=wn if d1 else c01.wave_arg(cfg, 'rec'), mode=mode)
+    fwd = (DWT1DForward if d1 else DWTForward)(J=J, wave=wn if d1 else c01.wave_arg(cfg, 'dec'), mode=lib_mode(cfg))
+    inv = (DWT1DInverse if d1 else DWTInverse)(wave=wn if d1 else c01.wave_arg(cfg, 'rec'), mode=lib_mode(cfg))
     try:
         if cfg['dir'] == 'fwd':
             n_in = int(np.prod(shp))
